@@ -431,7 +431,7 @@ theorem closeChild (h : IdxInv k) (child : Nat) : IdxInv (k.closeChild child) :=
     · exact h.remove _
     · exact (h.emit _ _ _).remove _
 
-theorem onClose (h : IdxInv k) (fd : Nat) : IdxInv (k.onClose fd).1 := by
+theorem onClose (h : IdxInv k) (fam : Bool) (fd : Nat) : IdxInv (k.onClose fam fd).1 := by
   unfold Kernel.onClose
   split
   · exact h
@@ -446,10 +446,10 @@ theorem onClose (h : IdxInv k) (fd : Nat) : IdxInv (k.onClose fd).1 := by
         · exact h
       · exact h
 
-theorem close (h : IdxInv k) (fd : Nat) : IdxInv (k.close fd) := by
+theorem close (h : IdxInv k) (fam : Bool) (fd : Nat) : IdxInv (k.close fam fd) := by
   unfold Kernel.close
   dsimp only
-  have h1 := h.onClose fd
+  have h1 := h.onClose fam fd
   split
   · exact h1.remove _
   · exact h1
@@ -483,7 +483,9 @@ theorem persistProbe (cfg : Cfg) (h : IdxInv k) (fd : Nat) : IdxInv (k.persistPr
     · dsimp only
       split
       · exact h.setSock _ _
-      · exact (h.setSock _ _).emit _ _ _
+      · split
+        · exact (h.setSock _ _).abortWith _ _ _
+        · exact (h.setSock _ _).emit _ _ _
 
 theorem checkRetx0 (cfg : Cfg) (h : IdxInv k) : IdxInv (Kernel.checkRetx0 cfg k) := by
   unfold Kernel.checkRetx0
